@@ -9,6 +9,17 @@ Part B (value opacity): for every slot kind (where a bound value / loop item ent
 sentinel kind (a template construct over fresh names, each fresh name bound to a unique marker) the real
 output must equal the expansion that emits the value verbatim. When it does not, the construct kind that
 was interpreted identifies the re-interpreting pass; mechanism key = "opacity:<slot kind>-><pass>".
+
+Part C (one long-lived renderer): a session of 3-9 renderings on ONE Ribosome, separated by what callers do between
+renderings — new values for the same names, a single value changed, an equal-but-distinct context, a bound list
+changed in place, a partial / the page registered again (register_template, register_template(name=...),
+create_template), a so far unknown partial registered, `strict` switched — while (in 60% of the sessions) every
+filter callable also starts a rendering of an unrelated small template on the same renderer (re-entrancy). Each
+rendering must be the Part A expansion of the templates registered at that moment with the bindings of that call;
+mechanism key = "session:after-<step>:<Part A key>" / "session:nested-render-*".
+
+Part D (overlapping renderings): 2-3 real threads render on ONE Ribosome under rv.sched (switches at every read /
+write of an instance field of the renderer); each result must be its own expansion; key = "overlap:<Part A key>".
 """
 import sys
 
@@ -19,11 +30,18 @@ PID = "C12"
 LEVEL = "exploration"
 TECHNIQUE = ("runtime monitoring: the real Ribosome renders generated templates; outputs, warnings and errors are "
              "compared with an independent single-pass reference expansion of the generator's own template AST; "
-             "value opacity is monitored by taint sentinels (constructs over fresh names bound to unique markers)")
+             "value opacity is monitored by taint sentinels (constructs over fresh names bound to unique markers); "
+             "the same oracle judges every rendering of multi-step sessions on one long-lived renderer (with re-entrant "
+             "renderings started from filter callbacks) and of overlapping renderings from threads under a controlled scheduler")
 RULE = ("Part A case = 1 generated template set (main + up to 3 levels of acyclic includes) x 5 contexts x strict on/off; "
         "Part B case = 1 host template x every (slot location, slot form, sentinel kind) combination; "
-        "non-trivial = the template set uses >= 2 construct kinds; distinct = (template shape, binding pattern, strict) "
-        "for Part A and (host shape, slot location, slot form, sentinel kind) for Part B")
+        "Part C case = 1 template set x 1 long-lived renderer x a session of 3-9 renderings (steps drawn from "
+        "revalue / revalue-one / same / new / mutate-list / reregister / register-unknown / repage / toggle-strict); "
+        "Part D case = 1 template set x 1 renderer x 2-3 threads x 1-2 renderings each x 1 schedule; "
+        "non-trivial = the template set uses >= 2 construct kinds (Part C: and >= 2 renderings; Part D: and the schedule "
+        "switched threads while another rendering was in progress); distinct = (template shape, binding pattern, strict) "
+        "for Part A, (host shape, slot location, slot form, sentinel kind) for Part B, (template shapes, step sequence) "
+        "for Part C and (template shapes, thread count, schedule trace) for Part D")
 ASSUMPTIONS = [
     "Part A: literal text, values, loop items and defaults contain no '{{' or '}}' (literal text and string values no brace at all)",
     "blocks are not nested; includes are acyclic and at most 3 levels deep; an include inside an each-body sees the outer context",
@@ -35,6 +53,14 @@ ASSUMPTIONS = [
     "filtered variables are always bound (the statement does not say how an unbound filtered variable renders); "
     "optional/default/filtered forms of a loop's own names (item/index/first/last/dict keys) are not generated",
     "context names avoid 'template', 'sequence' and 'self' (they collide with the API's own parameters)",
+    "Parts C/D use the Part A universe (delimiter-free values); a rendering's expansion is defined by the bindings of that "
+    "call and the templates registered at that moment: a name refers to the template most recently registered under it "
+    "through register_template / create_template (or handed to the constructor); `strict` is read from the renderer's "
+    "public attribute at call time; earlier renderings, errors raised by them and renderings started from a filter "
+    "callback on the same renderer do not change the result (the statement quantifies over all templates and contexts, "
+    "not over fresh renderers); the registry is only changed through the public methods, never by writing to `.templates`",
+    "Part D: renderings that overlap in time on one renderer (registry unchanged meanwhile) must each yield their own "
+    "expansion; threads are switched only at reads/writes of the renderer's instance fields",
 ]
 
 # Documentation only (never consulted by the verdict): the mechanism keys this check emits on the unchanged tree.
@@ -89,11 +115,13 @@ def teardown_shard(ctx):
 
 NB = {"quick": 300, "thorough": 5000}      # Part B hosts (x 429 slot/sentinel combinations each)
 NA = {"quick": 30000, "thorough": 500000}  # Part A template sets (x 5 contexts each)
+NC = {"quick": 8000, "thorough": 120000}   # Part C sessions on one long-lived renderer (3-9 renderings each)
+ND = {"quick": 600, "thorough": 8000}      # Part D overlapping renderings from 2-3 threads on one renderer
 CTX_PER_CASE = 5
 
 
 def plan(tier):
-    return {"cases": NB[tier] + NA[tier], "shards": 8 if tier == "quick" else 14,
+    return {"cases": NB[tier] + NA[tier] + NC[tier] + ND[tier], "shards": 8 if tier == "quick" else 14,
             "min_nontrivial": 30000, "timeout": 600 if tier == "quick" else 2400,
             "require": {
                 # Part A workload actually judged
@@ -110,6 +138,14 @@ def plan(tier):
                 "via_translate_name": 15000, "via_translate_mrna": 15000, "via_synthesize": 15000,
                 # Part B sweep
                 "partb_combos": 40000, "partb_baseline_ok": 40000, "partb_opaque_ok": 10000,
+                # Part C sessions / Part D overlapping renderings
+                "partc_sessions": 1500, "partc_renders": 8000, "partc_text_compared": 7000,
+                "partc_same_names_new_values_with_include": 3000, "partc_list_mutated_in_place_then_rendered": 500,
+                "partc_registry_changed_then_rendered": 1000, "partc_strict_toggled_then_rendered": 250,
+                "partc_nested_renders": 5000, "partc:ref_include_depth1": 10000, "partc:ref_include_depth2": 6000,
+                "partc:strict_error_expected_and_raised": 300, "partc:unknown_include_checked": 2500,
+                "partd_schedules": 100, "partd_schedules_interleaved": 70, "partd_renders": 300,
+                "partd_text_compared": 250, "partd:ref_include_depth1": 500,
                 # anchored passes of the real renderer entered
                 "reach:_process_conditionals": 200000, "reach:_process_loops": 200000,
                 "reach:_process_includes": 200000, "reach:_process_variables": 200000,
@@ -117,9 +153,14 @@ def plan(tier):
 
 
 def run_case(ctx, n):
-    if n < NB[ctx.tier]:
+    t = ctx.tier
+    if n < NB[t]:
         return case_B(ctx, n)
-    return case_A(ctx, n)
+    if n < NB[t] + NA[t]:
+        return case_A(ctx, n)
+    if n < NB[t] + NA[t] + NC[t]:
+        return case_C(ctx, n - NB[t] - NA[t])
+    return case_D(ctx, n - NB[t] - NA[t] - NC[t])
 
 
 # ----------------------------------------------------------------------------- running the real code
@@ -474,6 +515,301 @@ def case_B(ctx, n):
                           % (slotname, construct), w)
         if ci % 97 == 0:
             ctx.sample(dict(w, part="B"))
+
+
+# ----------------------------------------------------------------------------- Part C: one long-lived renderer
+NEST_MAIN = [("text", "<"), ("inc", "zsub"), ("text", "|"), ("var", "zr"), ("text", "|"), ("opt", "zo"), ("text", ">")]
+NEST_SUB = [("text", "["), ("var", "zr"), ("text", "]")]
+
+
+class Reentry:
+    """Filter callables of a session: pure functions of their argument that, as a side effect, render a small
+    unrelated template (different bindings, its own include) on the SAME renderer while the outer rendering is in
+    progress, and log what that nested rendering returned next to its single-pass expansion."""
+
+    def __init__(self, pure):
+        self.pure = pure
+        self.rib = None
+        self.busy = False
+        self.calls = 0
+        self.log = []
+
+    def filters(self):
+        def wrapped(name):
+            def f(x):
+                self.nested()
+                return self.pure[name](x)
+            return f
+        return {name: wrapped(name) for name in self.pure}
+
+    def nested(self):
+        if self.rib is None or self.busy:
+            return
+        self.busy = True
+        try:
+            self.calls += 1
+            bind = {"zr": "r%d" % self.calls, "zo": self.calls % 3}
+            expected = M.concrete(M.Ref({"__main__": NEST_MAIN, "zsub": NEST_SUB}, {}, bind).render("__main__"))
+            try:
+                got = ("ok", self.rib.synthesize(M.unparse(NEST_MAIN), **bind).sequence)
+            except Exception as e:
+                got = ("raise", repr(e))
+            self.log.append((bind, got, expected))
+        finally:
+            self.busy = False
+
+
+RENDER_STEPS = ["revalue", "revalue-one", "same", "new", "mutate-list", "reregister", "register-unknown", "repage",
+                "toggle-strict"]
+STEP_WEIGHTS = [30, 10, 8, 15, 10, 10, 5, 4, 4]
+REG_HOW = ["register", "register-named", "create"]
+
+
+def register(rib, mRNA, name, seq, how):
+    """(Re-)register `seq` under `name` through the public API."""
+    if how == "register":
+        rib.register_template(mRNA(sequence=seq, name=name))
+    elif how == "register-named":
+        rib.register_template(mRNA(sequence=seq, name="draft_of_" + name), name=name)
+    else:
+        rib.create_template(seq, name)
+
+
+def case_C(ctx, n):
+    """A session: ONE renderer, 3-9 renderings separated by the things a caller does between renderings (new values
+    for the same names, one value changed, a bound list changed in place, a partial / the page registered again, a so
+    far unknown partial registered, strict switched). Every rendering must be the expansion of the templates
+    registered AT THAT MOMENT with the bindings given to THAT call."""
+    rng = ctx.rng("C", n)
+    R, mRNA = _classes()
+    templates, names = M.gen_templates(rng, max_main=6, p_inc=0.9)
+    templates["zsub"] = NEST_SUB
+    strict = rng.random() < 0.25
+    pure = dict(R.BUILTIN_FILTERS)
+    pure.update(M.custom_filters())
+    reentrant = rng.random() < 0.6
+    re_ = Reentry(pure)
+    flt = re_.filters() if reentrant else M.custom_filters()
+    pre = {nm: mRNA(sequence=M.unparse(nodes), name=nm) for nm, nodes in templates.items() if nm != "__main__"}
+    if rng.random() < 0.5:      # registry handed to the constructor
+        rib = R(templates=dict(pre), filters=flt, strict=strict, silent=True)
+    else:
+        rib = R(filters=flt, strict=strict, silent=True)
+        for nm in pre:
+            rib.register_template(pre[nm])
+    re_.rib = rib
+    st = {"seq": None, "page": None}
+
+    def set_page(how="register"):
+        st["seq"] = M.unparse(templates["__main__"])
+        register(rib, mRNA, "page0", st["seq"], how)
+        st["page"] = rib.templates["page0"]
+    set_page()
+    shp = tuple(sorted((k, M.shape(v)) for k, v in templates.items()))
+    kinds = M.construct_kinds(templates)
+    history = []
+    seen_keysets = {}       # frozenset(keys) -> repr of the last values rendered with that key set
+    steps = ["new"] + rng.choices(RENDER_STEPS, weights=STEP_WEIGHTS, k=rng.randint(2, 8))
+    bind = None
+    done = []
+    ctx.count("partc_sessions")
+    if reentrant:
+        ctx.count("partc_sessions_reentrant_filters")
+    for step in steps:
+        # ---- what the caller does before this rendering
+        if step == "new" or bind is None:
+            step = "new"
+            bind = M.gen_context(rng, templates, rng.choice([1.0, 1.0, 0.85, 0.6]))
+        elif step == "revalue":
+            bind = M.revalue(rng, templates, bind)
+        elif step == "revalue-one":
+            bind = M.revalue(rng, templates, bind, one_only=True)
+        elif step == "same":
+            bind = M.copy.deepcopy(bind)           # equal, but distinct objects
+        elif step == "mutate-list":
+            if M.mutate_list_in_place(rng, bind) is None:
+                step = "revalue"
+                bind = M.revalue(rng, templates, bind)
+        elif step == "toggle-strict":
+            strict = not strict
+            rib.strict = strict
+        else:
+            how = rng.choice(REG_HOW)
+            lv = M.include_levels(templates)
+            target, nodes = None, None
+            if step == "reregister" and lv:
+                level = rng.choice(sorted(lv))
+                target = rng.choice(lv[level])
+                deeper = [t for l2 in lv if l2 > level for t in lv[l2]]
+                nodes = M.gen_nodes(rng, names, deeper, 1, 4)
+            elif step == "register-unknown":
+                target = rng.choice(M.UNKNOWN_INC)
+                nodes = M.gen_nodes(rng, names, None, 1, 3)
+            elif step == "repage":
+                target = "__main__"
+                nodes = M.gen_nodes(rng, names, [t for l2 in lv for t in lv[l2]], 1, 6)
+                if lv.get(1) and rng.random() < 0.8:
+                    nodes.insert(rng.randint(0, len(nodes)), ("inc", rng.choice(lv[1])))
+            if target is not None:
+                old = templates.get(target)
+                templates[target] = nodes
+                if M.include_depth(templates) > 3:       # stay inside the quantifier (<= 3 levels of includes)
+                    if old is None:
+                        del templates[target]
+                    else:
+                        templates[target] = old
+                    target = None
+            if target is None:
+                step = "revalue"
+                bind = M.revalue(rng, templates, bind)
+            elif target == "__main__":
+                set_page(how)
+                history.append({"step": step, "how": how, "page": st["seq"]})
+            else:
+                register(rib, mRNA, target, M.unparse(nodes), how)
+                history.append({"step": step, "how": how, "name": target, "sequence": M.unparse(nodes)})
+            if target is not None:
+                if rng.random() < 0.4:
+                    bind = M.revalue(rng, templates, bind)
+                bind = M.bind_filtered(rng, templates, bind)
+        # ---- the rendering
+        via = rng.choice(VIAS)
+        snap = M.copy.deepcopy(bind)
+        history.append({"step": "render:" + step, "via": via, "strict": strict, "context": snap})
+        res = render_on(rib, st["seq"], st["page"], bind, via)
+        ctx.count("partc_renders")
+        ctx.count("partc_step:" + step)
+        ctx.count("via_" + via)
+        stats = {}
+
+        def extra(bind=snap, strict=strict, via=via):
+            # would a renderer without this history render it correctly?
+            fresh = judge(ctx, {k: v for k, v in templates.items()}, bind, strict, via, quiet=True) is None
+            return {"history": list(history), "reentrant_filters": reentrant, "fresh_renderer_conforms": fresh}
+        mech = assess(ctx, templates, pure, res, bind, strict, via, prefix="session:after-%s:" % step, tag="partc",
+                      extra_witness=extra, stats_out=stats)
+        done.append(step)
+        # the deciding situations, counted so that their absence makes the run inconclusive
+        ks = frozenset(bind)
+        has_inc = any(stats.get("ref_include_depth%d" % d) for d in (1, 2, 3))
+        if stats:
+            vals = repr(sorted((k, repr(v)) for k, v in bind.items()))
+            if ks in seen_keysets and seen_keysets[ks] != vals and has_inc:
+                ctx.count("partc_same_names_new_values_with_include")
+            seen_keysets[ks] = vals
+            if step == "mutate-list":
+                ctx.count("partc_list_mutated_in_place_then_rendered")
+            if step in ("reregister", "register-unknown", "repage"):
+                ctx.count("partc_registry_changed_then_rendered")
+            if step == "toggle-strict":
+                ctx.count("partc_strict_toggled_then_rendered")
+        # nested renderings made from inside filters during this rendering
+        for nb, got, expected in re_.log:
+            ctx.count("partc_nested_renders")
+            if got[0] == "raise":
+                ctx.violation("session:nested-render-raises", "a rendering started from a filter callback raised",
+                              {"nested_context": nb, "error": got[1], "history": list(history)})
+            elif got[1] != expected:
+                ctx.violation("session:nested-render-mismatch",
+                              "a rendering started from a filter callback (while another rendering was in progress on the "
+                              "same renderer) differs from its single-pass expansion",
+                              {"nested_template": M.unparse(NEST_MAIN), "zsub": M.unparse(NEST_SUB), "nested_context": nb,
+                               "expected": expected, "actual": got[1], "history": list(history)})
+        del re_.log[:]
+    if len(kinds) >= 2 and len(done) >= 2:
+        ctx.nontrivial(("C", shp, tuple(done), reentrant))
+    if n % 499 == 0:
+        ctx.sample({"part": "C", "templates": {k: M.unparse(v) for k, v in templates.items()}, "history": history[-6:]})
+
+
+# ----------------------------------------------------------------------------- Part D: overlapping renderings (threads)
+def _overlap_class():
+    if "Overlap" not in _MON:
+        import threading
+        from rv import sched
+        R, _ = _classes()
+
+        def yp(tag):
+            s = sched._ACTIVE
+            if s is not None:
+                me = s.index.get(threading.get_ident())
+                if me is not None:
+                    s.yield_point(me, tag, 0)
+
+        class OverlapRibosome(R):
+            """Every read / write of an instance field (whatever its name) is a scheduling point."""
+
+            def __getattribute__(self, name):
+                if name in object.__getattribute__(self, "__dict__"):
+                    yp("read:" + name)
+                return object.__getattribute__(self, name)
+
+            def __setattr__(self, name, value):
+                yp("write:" + name)
+                object.__setattr__(self, name, value)
+
+        _MON["Overlap"] = OverlapRibosome
+    return _MON["Overlap"]
+
+
+def case_D(ctx, n):
+    """2-3 threads render on ONE renderer at the same time (controlled scheduler; switches at the renderer's field
+    accesses). The registry is not changed meanwhile, so each rendering has exactly one expansion."""
+    from rv import sched
+    rng = ctx.rng("D", n)
+    R, mRNA = _classes()
+    O = _overlap_class()
+    templates, names = M.gen_templates(rng, max_main=5, p_inc=0.9)
+    strict = rng.random() < 0.2
+    rib = O(filters=M.custom_filters(), strict=strict, silent=True)
+    for nm, nodes in templates.items():
+        if nm != "__main__":
+            rib.register_template(mRNA(sequence=M.unparse(nodes), name=nm))
+    seq = M.unparse(templates["__main__"])
+    page = mRNA(sequence=seq, name="page0")
+    rib.register_template(page)
+    nthreads = rng.choice([2, 2, 3])
+    base = M.gen_context(rng, templates, rng.choice([1.0, 1.0, 0.85]))
+    binds = [base]
+    for _ in range(nthreads - 1):
+        binds.append(M.revalue(rng, templates, base) if rng.random() < 0.75
+                     else M.gen_context(rng, templates, rng.choice([1.0, 0.85])))
+    reps = rng.choice([1, 1, 2])
+    vias = [[rng.choice(VIAS) for _ in range(reps)] for _ in range(nthreads)]
+    if rng.random() < 0.5:
+        policy, plabel = sched.RandomPolicy(rng, rng.choice([0.15, 0.3, 0.5])), "random"
+    else:
+        policy, plabel = sched.PCTPolicy(rng, nthreads, rng.choice([1, 2, 3]), horizon=60), "pct"
+    sc = sched.Scheduler(policy, watchdog_s=30.0)
+    sc.run([(lambda i=i: [render_on(rib, seq, page, binds[i], v) for v in vias[i]]) for i in range(nthreads)])
+    ctx.count("partd_schedules")
+    if sc.stuck:
+        ctx.inconclusive("a Part D schedule hit the wall-clock watchdog (not a verdict)")
+        return
+    desc = {"threads": [{"context": binds[i], "vias": vias[i]} for i in range(nthreads)], "policy": plabel,
+            "choices": sc.choices[:300]}
+    if sc.deadlock:
+        ctx.violation("overlap:deadlock", "overlapping renderings deadlocked: %s" % sc.deadlock,
+                      witness(templates, binds[0], strict, vias[0][0], **desc))
+        return
+    if sc.switch_while_other_inside:
+        ctx.count("partd_schedules_interleaved")
+    ctx.count("partd_yield_points", sc.step)
+    for i in range(nthreads):
+        if sc.errors[i] is not None:
+            ctx.violation("overlap:thread-died", "a rendering thread died with %r" % (sc.errors[i],),
+                          witness(templates, binds[i], strict, vias[i][0], **desc))
+            continue
+        for j, res in enumerate(sc.results[i]):
+            ctx.count("partd_renders")
+
+            def extra(i=i, j=j):
+                fresh = judge(ctx, dict(templates), binds[i], strict, vias[i][j], quiet=True) is None
+                return dict(desc, thread=i, fresh_renderer_conforms=fresh)
+            assess(ctx, templates, rib.filters, res, binds[i], strict, vias[i][j], prefix="overlap:", tag="partd",
+                   extra_witness=extra)
+    if sc.switch_while_other_inside and len(M.construct_kinds(templates)) >= 2:
+        ctx.nontrivial(("D", tuple(sorted((k, M.shape(v)) for k, v in templates.items())), nthreads, sc.trace_hash()))
 
 
 if __name__ == "__main__":
